@@ -289,7 +289,7 @@ Proof.
   - destruct (add_failed i (d_files r) ++ d_failed r); simpl; intros H;
       apply in_app_or in H; destruct H as [H|H].
     + apply in_app_or in H. destruct H as [H|H]; [eapply dir_loop_partial; eauto|eauto].
-    + apply in_map_iff in H. destruct H as [p [E _]]. discriminate.
+    + destruct (t_dnoop i); [destruct H|]. apply in_map_iff in H. destruct H as [p [E _]]. discriminate.
     + apply in_app_or in H. destruct H as [H|H]; [eapply dir_loop_partial; eauto|eauto].
     + destruct H as [H|[]]. discriminate.
   - intros H. eapply dir_loop_partial; eauto.
@@ -385,7 +385,8 @@ Proof.
       - intros fl f E. inversion E; subst. auto.
       - intros fl D entries E. inversion E; subst. auto. }
     fold evs. fold failed. destruct failed as [|y yl] eqn:Ef; simpl.
-    + apply Htail. intros e He. apply in_map_iff in He. destruct He as [p [<- _]]. reflexivity.
+    + apply Htail. intros e He. destruct (t_dnoop i); [destruct He|].
+      apply in_map_iff in He. destruct He as [p [<- _]]. reflexivity.
     + apply Htail. intros e [<-|[]]. reflexivity.
   - simpl. constructor; auto; try discriminate.
     intros o H. apply (safe_has S); auto. now apply stable_d0.
